@@ -94,6 +94,32 @@ def boot_stdlib(ctx):
             ctx.violate("stdlib-helpers", f"op-params-mismatch:{label}", {"type_args": len(op.type_args()), "params": len(pf.params)})
         elif pf is not None and not all(kinds_match(a, p) for a, p in zip(op.type_args(), pf.params)):
             ctx.violate("stdlib-helpers", f"op-param-kinds-mismatch:{label}", {})
+        elif pf is not None:
+            # the helper's signature is the definition's signature at the helper's own type arguments
+            args = [a._to_serial_root().model_dump(mode="json") for a in op.type_args()]
+            want = subst(pf.body._to_serial().model_dump(mode="json"), args)
+            got = op.outer_signature()._to_serial().model_dump(mode="json")
+            if (got["input"], got["output"]) != (want["input"], want["output"]):
+                ctx.violate("stdlib-helpers", f"op-signature-is-not-the-definition-at-its-arguments:{label.split('(')[0]}",
+                            {"label": label, "type_args": args, "signature": got, "definition_instantiated": want})
+
+    def subst(x, args):
+        """Substitute type arguments for the variables of a serialised type expression."""
+        if isinstance(x, list):
+            out = []
+            for e in x:
+                if isinstance(e, dict) and e.get("t") == "R":
+                    out.extend(el["ty"] for el in args[e["i"]]["elems"])
+                else:
+                    out.append(subst(e, args))
+            return out
+        if isinstance(x, dict):
+            if x.get("t") == "V":
+                return args[x["i"]]["ty"]
+            if x.get("tya") == "Variable":
+                return args[x["idx"]]
+            return {k: subst(v, args) for k, v in x.items()}
+        return x
 
     for w in range(7):
         check_type(f"int_t({w})", int_t(w), "arithmetic.int.types", "int")
@@ -117,6 +143,12 @@ def boot_stdlib(ctx):
         ctx.violate("stdlib-helpers", "StaticArrayVal-type", {})
     check_op("Not", Not, "logic", "Not")
     check_op("DivMod", DivMod, "arithmetic.int", "idivmod_u")
+    import dataclasses
+    for w in range(7):
+        # the other ways to obtain the helper: another width, and back from the extension operation it denotes
+        dm = dataclasses.replace(DivMod, width=w)
+        check_op(f"DivMod(width={w})", dm, "arithmetic.int", "idivmod_u")
+        check_op(f"DivMod.from_ext(width={w})", type(DivMod).from_ext(dm.ext_op), "arithmetic.int", "idivmod_u")
     from hugr import ops
     check_op("MakeTuple", ops.MakeTuple([tys.Bool]), "prelude", "MakeTuple")
     check_op("UnpackTuple", ops.UnpackTuple([tys.Bool]), "prelude", "UnpackTuple")
